@@ -19,11 +19,13 @@ import (
 	"os"
 	"path/filepath"
 	"sort"
+	"strings"
 
 	"verif/harness/vh"
 )
 
 const keyD42 = "healthy_no_loss:direct:bgConnect-race"
+const keyD70 = "healthy_no_loss:applyConfig-race"
 
 func genScript(r *vh.Rng, mode string, thorough bool) []directive {
 	n := 0
@@ -144,6 +146,16 @@ func genSpec(r *vh.Rng, idx int, thorough bool) scenarioSpec {
 			}
 		}
 	}
+	if !sp.Stall && len(sp.Reconfig) == 0 && sp.IdleMs == 0 && sp.BigAll == 0 && r.Chance(10) {
+		// ApplyConfig while sending; the refusal machinery re-listens on the same port, so no refusals here
+		sp.ApplyConfigs = 2 + r.Intn(8)
+		for i := range sp.Script {
+			sp.Script[i].RefuseBefore = 0
+		}
+		if sp.Post < 40 {
+			sp.Post = 40 + r.Intn(60)
+		}
+	}
 	sp.Name = fmt.Sprintf("%s/%d senders/%d faults", sp.Mode, sp.Senders, len(sp.Script))
 	if len(sp.Reconfig) > 0 {
 		sp.Name += fmt.Sprintf("/reconfigure %v", sp.Reconfig)
@@ -153,6 +165,9 @@ func genSpec(r *vh.Rng, idx int, thorough bool) scenarioSpec {
 	}
 	if sp.Stall {
 		sp.Name += "/stalled consumer"
+	}
+	if sp.ApplyConfigs > 0 {
+		sp.Name += fmt.Sprintf("/%d ApplyConfig calls", sp.ApplyConfigs)
 	}
 	if sp.IdleMs > 0 {
 		sp.Name += fmt.Sprintf("/idle %d ms > timeout %d ms", sp.IdleMs, sp.TimeoutMs)
@@ -180,6 +195,8 @@ func fixedSpecs(seed uint64) []scenarioSpec {
 		stall(1, 30), stall(4, 15), stall(16, 8),
 		// a healthy connection that idles longer than the client's Timeout between sends
 		idle("direct", 1), idle("direct", 4), idle("queue", 1), idle("queue", 4),
+		// ApplyConfig (Close + Connect) while the senders run, healthy collector
+		reconf("direct", 4, 6, 60), reconf("direct", 16, 8, 30), reconf("queue", 4, 6, 120),
 		// reconfiguration under a backlog (healthy connection): lower, raise, unbounded, mixed
 		rc(4, 64, 10, []int{4}), rc(4, 8, 10, []int{200}), rc(1, 32, 30, []int{0}), rc(16, 0, 5, []int{2, 100, 0, 1}),
 		// frames larger than the 2 MiB buffered writer, cut inside the frame at several offsets, then >= 10 sends
@@ -198,6 +215,11 @@ func idle(mode string, senders int) scenarioSpec {
 		Seed: uint64(senders*31 + len(mode)), Name: fmt.Sprintf("fixed %s/%d senders/idle 1300 ms > timeout 500 ms", mode, senders)}
 }
 
+func reconf(mode string, senders, calls, perSender int) scenarioSpec {
+	return scenarioSpec{Mode: mode, Senders: senders, PreMax: 1500, Post: perSender, ApplyConfigs: calls,
+		Seed: uint64(senders*53 + calls + len(mode)), Name: fmt.Sprintf("fixed %s/%d senders/%d ApplyConfig calls while sending", mode, senders, calls)}
+}
+
 func rc(senders, cap0, perSender int, caps []int) scenarioSpec {
 	return scenarioSpec{Mode: "queue", Senders: senders, QueueCap: cap0, PreMax: 1500, Post: perSender, Reconfig: caps,
 		Seed: uint64(senders*131 + cap0*7 + perSender + len(caps)), Name: fmt.Sprintf("fixed queue/%d senders/reconfigure %v", senders, caps)}
@@ -211,7 +233,7 @@ func bigc(mode string, senders, size, frames, extra int) scenarioSpec {
 
 func canon(o *observation, an *analysis) string {
 	b, _ := json.Marshal(o.Spec.Script)
-	return fmt.Sprintf("%s|%d|cap%d|big%d/%d|rc%v%v|idle%d|%s|conns%d|delivered%d", o.Spec.Mode, o.Spec.Senders, o.Spec.QueueCap, o.Spec.Big, o.Spec.BigAll, o.Spec.Reconfig, o.Spec.Stall, o.Spec.IdleMs, b, len(o.Conns), len(an.Delivered))
+	return fmt.Sprintf("%s|%d|cap%d|big%d/%d|rc%v%v|idle%d|ac%d|%s|conns%d|delivered%d", o.Spec.Mode, o.Spec.Senders, o.Spec.QueueCap, o.Spec.Big, o.Spec.BigAll, o.Spec.Reconfig, o.Spec.Stall, o.Spec.IdleMs, o.Spec.ApplyConfigs, b, len(o.Conns), len(an.Delivered))
 }
 
 func main() {
@@ -225,9 +247,9 @@ func main() {
 	rep.Rule = "a case is one scenario: mode (direct|queue) x senders (1|4|16) x entry points (Send, SendFlush(false), SendFlush(true), per-send options) x fault script (per accepted connection: close after j whole frames + m bytes, FIN or RST; refuse k connects) x pack sizes (up to > the 2 MiB write buffer) x queue reconfiguration / stalled consumer under a backlog x idle longer than the write timeout, run on the real client (in a child process) against a loopback collector stand-in; non-trivial = at least one frame was received and (a fault was carried out or several senders ran); distinct by (mode, senders, queue capacity, sizes, reconfiguration, script, connections accepted, frames received)"
 
 	var specs []scenarioSpec
-	replayD42 := false
+	replayD42, replayD70 := false, false
 	if env.Replay != "" {
-		specs, replayD42 = loadReplay(env.Replay)
+		specs, replayD42, replayD70 = loadReplay(env.Replay)
 	} else {
 		specs = fixedSpecs(env.Seed)
 		n := 150
@@ -306,6 +328,31 @@ func main() {
 			}
 		}
 	}
+	// D70 replay (always), in its own process: ApplyConfig while sending, both modes
+	if env.Replay == "" || replayD70 {
+		rs, died := runD70Isolated(env)
+		rep.Extra["d70"] = rs
+		lost, tot := 0, 0
+		ex := ""
+		for _, r := range rs {
+			lost += r.Lost
+			tot += r.Accepted
+			if ex == "" && r.Example != "" {
+				ex = r.Mode + " mode, " + r.Example
+			}
+		}
+		what := fmt.Sprintf("D70 replay: 4 senders against a healthy collector while ApplyConfig alternates the license (Close + Connect): %d of %d accepted packs were never received (%s)", lost, tot, ex)
+		if died != "" {
+			rep.KnownReplay(keyD70, true, what+" — "+vh.Clip(died, 300))
+			rep.Fail("property", keyD70+":crash", "ApplyConfig racing senders: "+vh.Clip(died, 600), map[string]interface{}{"how": what, "output": died})
+		} else {
+			rep.KnownReplay(keyD70, lost > 0, what)
+			if lost > 0 {
+				rep.Fail("property", keyD70, "Send returned nil (or Put true) for packs that no connection received although the collector stayed healthy: ApplyConfig closes and re-dials without the send lock (and process() writes and flushes without it), so conn/wr are replaced between a writer's Write and its Flush — "+what,
+					map[string]interface{}{"d70": rs, "how": what})
+			}
+		}
+	}
 	collectRaceLog(rep)
 	sortNotes(rep)
 	if env.Out != "" {
@@ -317,7 +364,7 @@ func main() {
 
 func sortNotes(rep *vh.Report) { sort.Strings(rep.Notes) }
 
-func loadReplay(path string) ([]scenarioSpec, bool) {
+func loadReplay(path string) ([]scenarioSpec, bool, bool) {
 	b, err := os.ReadFile(path)
 	if err != nil {
 		vh.Die("replay: %v", err)
@@ -327,6 +374,7 @@ func loadReplay(path string) ([]scenarioSpec, bool) {
 		Cases []struct {
 			Spec *scenarioSpec   `json:"spec"`
 			D42  json.RawMessage `json:"d42"`
+			D70  json.RawMessage `json:"d70"`
 		} `json:"cases"`
 	}
 	if err := json.Unmarshal(b, &f); err != nil {
@@ -334,9 +382,13 @@ func loadReplay(path string) ([]scenarioSpec, bool) {
 	}
 	var out []scenarioSpec
 	d42 := f.Key == keyD42
+	d70 := strings.HasPrefix(f.Key, keyD70) && len(f.Cases) > 0 && f.Cases[0].Spec == nil
 	for _, c := range f.Cases {
 		if len(c.D42) > 0 {
 			d42 = true
+		}
+		if len(c.D70) > 0 {
+			d70 = true
 		}
 		if c.Spec != nil {
 			// a schedule-dependent failure may need several runs of the same scenario
@@ -345,5 +397,5 @@ func loadReplay(path string) ([]scenarioSpec, bool) {
 			}
 		}
 	}
-	return out, d42
+	return out, d42, d70
 }
